@@ -22,6 +22,8 @@ pub enum Op {
     Finish,
     FinishClear,
     Abandon,
+    /// finish_using_style() on a bar whose finish behaviour was never configured (the default)
+    FinishDefault,
     DropA,
     TickB,
     MpPrintln,
@@ -158,6 +160,7 @@ impl C18 {
                     Op::Reset => a.map(|a| a.reset()).unwrap_or(()),
                     Op::ForceDraw => a.map(|a| a.force_draw()).unwrap_or(()),
                     Op::Finish => a.map(|a| a.finish()).unwrap_or(()),
+                    Op::FinishDefault => a.map(|a| a.finish_using_style()).unwrap_or(()),
                     Op::FinishClear => a.map(|a| a.finish_and_clear()).unwrap_or(()),
                     Op::Abandon => a.map(|a| a.abandon_with_message("ab")).unwrap_or(()),
                     Op::DropA => w.a = None,
@@ -280,6 +283,7 @@ impl Hist for C18 {
             }
         } else {
             v.push(Op::SetTarget);
+            v.push(Op::FinishDefault);
         }
         v
     }
